@@ -1338,4 +1338,310 @@ theorem stale_list (f : NA × Session × Nat → NA × Keys) (l L' : List (NA ×
     subst hpre h
     rw [filter_any_suffix pre r na hnd]
 
+/-- Context tracking where session keys come from during one WHOAREYOU step: from the state
+before the step (same node address) or freshly derived for challenge data `cd`. -/
+def ctxK (c : Cfg) (s0 : HState) (cd : Nat) : Ctx where
+  GN := fun _ => True
+  GS := fun na sess => (∃ e' ∈ s0.sessions, e'.1 = na ∧ e'.2.1.keys = sess.keys) ∨
+    ∃ eph, sess.keys = iniKeys c na eph cd
+  SL := fun _ => True
+  GC := fun _ => True
+  GPk := fun _ => True
+  GO := fun _ => True
+  F := fun _ _ => True
+  gs_gn := fun _ _ _ => trivial
+  gs_counter := fun _ _ _ h => h
+  gs_await := fun _ _ h => h
+  gc_gn := fun _ _ => trivial
+  go_est_contact := fun _ _ _ _ _ => trivial
+  gpk_msg := fun _ _ _ => trivial
+  gpk_hs := fun _ _ _ _ _ _ => trivial
+  go_failed := fun _ _ => trivial
+  go_expired := fun _ => trivial
+  go_wru := fun _ _ => trivial
+  go_send := fun _ _ _ => trivial
+  go_request := fun _ _ _ _ => trivial
+  go_response := fun _ _ _ _ => trivial
+  go_est := fun _ _ _ _ _ => trivial
+  go_unv := fun _ _ _ => trivial
+  sl_filter := fun _ _ _ => trivial
+  sl_insert := fun _ _ _ => trivial
+  sl_suffix := fun _ _ _ => trivial
+
+theorem initiator_aux (c : Cfg) (s : HState) (src : Addr) (nonce cd enrSeq : Nat) :
+    ∀ e ∈ (step c s (.dgram src (.whoareyou nonce cd enrSeq))).1.sessions,
+      (∃ e' ∈ s.sessions, e'.1 = e.1 ∧ e'.2.1.keys = e.2.1.keys) ∨
+      ∃ eph, e.2.1.keys = iniKeys c e.1 eph cd := by
+  have h0 : Inv (ctxK c s cd) (s, []) :=
+    ⟨fun e he => Or.inl ⟨e, he, rfl, rfl⟩, trivial, fun _ _ => ⟨trivial, trivial⟩,
+      fun _ _ _ _ => trivial, fun _ ho => (by cases ho), trivial⟩
+  have hsp : Spec (ctxK c s cd) (handleChallenge c src nonce cd enrSeq) (fun _ => True) := by
+    refine spec_handleChallenge c src nonce cd enrSeq ?_
+    intro ct eph _
+    exact ⟨fun _ => Or.inr ⟨eph, rfl⟩, fun _ _ _ => Or.inr ⟨eph, rfl⟩⟩
+  exact (hsp _ h0).1.sess
+
+def NotWru (p : Pkt) : Prop := ∀ n cd e, p ≠ .whoareyou n cd e
+
+/-- Context for the uniqueness of id-nonces: no WHOAREYOU is (re)sent and the cd counter stays. -/
+def ctxD (k0 : Nat) : Ctx where
+  GN := fun _ => True
+  GS := fun _ _ => True
+  SL := fun _ => True
+  GC := fun _ => True
+  GPk := NotWru
+  GO := fun o => ∀ na p, o = .send na p → NotWru p
+  F := fun _ cd => cd = k0
+  gs_gn := fun _ _ _ => trivial
+  gs_counter := fun _ _ _ _ => trivial
+  gs_await := fun _ _ _ => trivial
+  gc_gn := fun _ _ => trivial
+  go_est_contact := fun _ _ _ _ _ _ _ h => by cases h
+  gpk_msg := fun _ _ _ _ _ _ h => by cases h
+  gpk_hs := fun _ _ _ _ _ _ _ _ _ h => by cases h
+  go_failed := fun _ _ _ _ h => by cases h
+  go_expired := fun _ _ _ h => by cases h
+  go_wru := fun _ _ _ _ h => by cases h
+  go_send := fun _ _ hp _ _ h => by cases h; exact hp
+  go_request := fun _ _ _ _ _ _ h => by cases h
+  go_response := fun _ _ _ _ _ _ h => by cases h
+  go_est := fun _ _ _ _ _ _ _ h => by cases h
+  go_unv := fun _ _ _ _ _ h => by cases h
+  sl_filter := fun _ _ _ => trivial
+  sl_insert := fun _ _ _ => trivial
+  sl_suffix := fun _ _ _ => trivial
+
+theorem sentCds_append (a b : List Out) : sentCds (a ++ b) = sentCds a ++ sentCds b := by
+  induction a with
+  | nil => rfl
+  | cons x xs ih =>
+    cases x with
+    | send na p => cases p <;> simp only [List.cons_append, sentCds, ih]
+    | _ => simp only [List.cons_append, sentCds, ih]
+
+theorem sentCds_nil_of (os : List Out) (h : ∀ o ∈ os, ∀ na p, o = Out.send na p → NotWru p) :
+    sentCds os = [] := by
+  induction os with
+  | nil => rfl
+  | cons x xs ih =>
+    have ih' := ih (fun o ho => h o (List.mem_cons_of_mem _ ho))
+    cases x with
+    | send na p =>
+      cases p with
+      | whoareyou n cd e => exact absurd rfl (h _ (List.mem_cons_self ..) na _ rfl n cd e)
+      | _ => simp only [sentCds, ih']
+    | _ => simp only [sentCds, ih']
+
+/-- Per-step facts for the id-nonce invariant. -/
+theorem stepD (c : Cfg) (s : HState) (e : Ev) (ha : ∀ call ∈ s.active, NotWru call.pkt) :
+    (∀ call ∈ (step c s e).1.active, NotWru call.pkt) ∧
+    ((sentCds (step c s e).2 = [] ∧ (step c s e).1.fresh.cd = s.fresh.cd) ∨
+     (sentCds (step c s e).2 = [mkName c (s.fresh.cd + 1)] ∧ (step c s e).1.fresh.cd = s.fresh.cd + 1)) := by
+  have h0 : Inv (ctxD s.fresh.cd) (s, []) :=
+    ⟨fun _ _ => trivial, trivial, fun call hc => ⟨trivial, ha call hc⟩, fun _ _ _ _ => trivial,
+      fun _ ho => (by cases ho), rfl⟩
+  have gen : Spec (ctxD s.fresh.cd) (stepM c e) (fun _ => True) →
+      (∀ call ∈ (step c s e).1.active, NotWru call.pkt) ∧
+      ((sentCds (step c s e).2 = [] ∧ (step c s e).1.fresh.cd = s.fresh.cd) ∨
+       (sentCds (step c s e).2 = [mkName c (s.fresh.cd + 1)] ∧ (step c s e).1.fresh.cd = s.fresh.cd + 1)) := by
+    intro hsp
+    have hI := hsp.step h0
+    exact ⟨fun call hc => (hI.act call hc).2, Or.inl ⟨sentCds_nil_of _ hI.outs, hI.frame⟩⟩
+  cases e with
+  | appRequest ct rid body => exact gen (spec_stepM_appRequest c ct rid body trivial)
+  | appResponse na rid rb => exact gen (spec_stepM_appResponse c na rid rb)
+  | appWru na nonce known =>
+    have key : wp (sendChallenge c na nonce known) (fun _ st' =>
+        (st'.1.active = s.active) ∧
+        ((sentCds st'.2 = [] ∧ st'.1.fresh.cd = s.fresh.cd) ∨
+         (sentCds st'.2 = [mkName c (s.fresh.cd + 1)] ∧ st'.1.fresh.cd = s.fresh.cd + 1))) (s, []) := by
+      unfold sendChallenge freshCd addExpected send
+      simp only [wp_bind, wp_getS, wp_ite, wp_pure, wp_setS, wp_modS, wp_emit]
+      split
+      · simp [sentCds]
+      · split <;> simp [sentCds]
+    obtain ⟨k1, k2⟩ := key
+    refine ⟨fun call hc => ha call ?_, k2⟩
+    rw [← k1]; exact hc
+  | dgram src p =>
+    cases p with
+    | whoareyou nonce cd enrSeq =>
+      exact gen (spec_handleChallenge c src nonce cd enrSeq (fun _ _ _ => ⟨fun _ => trivial, fun _ _ _ => trivial⟩))
+    | message srcId nonce ct => exact gen (spec_handleMessage c _ nonce ct (fun _ _ => trivial))
+    | handshake srcId nonce sig eph record ct =>
+      refine gen (spec_handleAuthMessage c _ nonce sig eph record ct (fun _ _ _ h => h)
+        (fun _ _ _ h => h) (fun _ _ => trivial) ?_)
+      intro ch sess r hest
+      exact ⟨(establish_ok c _ ch sig eph record sess r hest).1, trivial, fun _ _ => trivial⟩
+  | adv dt => exact gen (spec_stepM_adv c dt (fun _ _ _ h => h))
+  | rtAdv dt => exact gen (spec_stepM_rtAdv c dt)
+
+theorem invD (c : Cfg) : ∀ evs,
+    (∀ call ∈ (run c evs).active, NotWru call.pkt) ∧ (sentCds (outputs c evs)).Nodup ∧
+    ∀ x ∈ sentCds (outputs c evs), x ≤ mkName c (run c evs).fresh.cd := by
+  refine list_rev_ind ?_ ?_
+  · exact ⟨fun _ h => (by cases h), List.nodup_nil, fun _ h => (by cases h)⟩
+  · intro evs e ⟨h1, h2, h3⟩
+    obtain ⟨k1, k2⟩ := stepD c (run c evs) e h1
+    rw [run_snoc, outputs_snoc, sentCds_append]
+    refine ⟨k1, ?_⟩
+    rcases k2 with ⟨k2, k3⟩ | ⟨k2, k3⟩
+    · rw [k2, k3, List.append_nil]; exact ⟨h2, h3⟩
+    · rw [k2, k3]
+      refine ⟨?_, ?_⟩
+      · rw [List.nodup_append]
+        refine ⟨h2, by simp, ?_⟩
+        intro a ha b hb hab
+        rw [List.mem_singleton.1 hb] at hab
+        have := h3 a ha
+        rw [hab] at this
+        unfold mkName at this
+        omega
+      · intro x hx
+        rcases List.mem_append.1 hx with hx | hx
+        · have := h3 x hx; unfold mkName at this ⊢; omega
+        · rw [List.mem_singleton.1 hx]; exact Nat.le_refl _
+
+/-- Context for: the session cache holds at most one entry per node address. -/
+def ctxE : Ctx where
+  GN := fun _ => True
+  GS := fun _ _ => True
+  SL := fun l => l.Nodup
+  GC := fun _ => True
+  GPk := fun _ => True
+  GO := fun _ => True
+  F := fun _ _ => True
+  gs_gn := fun _ _ _ => trivial
+  gs_counter := fun _ _ _ _ => trivial
+  gs_await := fun _ _ _ => trivial
+  gc_gn := fun _ _ => trivial
+  go_est_contact := fun _ _ _ _ _ => trivial
+  gpk_msg := fun _ _ _ => trivial
+  gpk_hs := fun _ _ _ _ _ _ => trivial
+  go_failed := fun _ _ => trivial
+  go_expired := fun _ => trivial
+  go_wru := fun _ _ => trivial
+  go_send := fun _ _ _ => trivial
+  go_request := fun _ _ _ _ => trivial
+  go_response := fun _ _ _ _ => trivial
+  go_est := fun _ _ _ _ _ => trivial
+  go_unv := fun _ _ _ => trivial
+  sl_filter := fun _ _ h => List.Pairwise.filter _ h
+  sl_insert := fun l na h => by
+    rw [List.nodup_append]
+    refine ⟨List.Pairwise.filter _ h, by simp, ?_⟩
+    intro a ha b hb hab
+    rw [List.mem_singleton.1 hb] at hab
+    have := (List.mem_filter.1 ha).2
+    simp [hab] at this
+  sl_suffix := fun l1 l2 h => (List.nodup_append.1 h).2.1
+
+theorem stepE (c : Cfg) (e : Ev) : Spec ctxE (stepM c e) (fun _ => True) := by
+  cases e with
+  | appRequest ct rid body => exact spec_stepM_appRequest c ct rid body trivial
+  | appResponse na rid rb => exact spec_stepM_appResponse c na rid rb
+  | appWru na nonce known =>
+    exact spec_sendChallenge c na nonce known (fun _ _ _ => trivial) (fun _ _ _ _ => trivial)
+      (fun _ _ _ => trivial)
+  | dgram src p =>
+    cases p with
+    | whoareyou nonce cd enrSeq =>
+      exact spec_handleChallenge c src nonce cd enrSeq (fun _ _ _ => ⟨fun _ => trivial, fun _ _ _ => trivial⟩)
+    | message srcId nonce ct => exact spec_handleMessage c _ nonce ct (fun _ _ => trivial)
+    | handshake srcId nonce sig eph record ct =>
+      refine spec_handleAuthMessage c _ nonce sig eph record ct (fun _ _ _ _ => trivial)
+        (fun _ _ _ _ => trivial) (fun _ _ => trivial) ?_
+      intro ch sess r hest
+      exact ⟨(establish_ok c _ ch sig eph record sess r hest).1, trivial, fun _ _ => trivial⟩
+  | adv dt => exact spec_stepM_adv c dt (fun _ _ _ _ => trivial)
+  | rtAdv dt => exact spec_stepM_rtAdv c dt
+
+theorem invE (c : Cfg) : ∀ evs, ((run c evs).sessions.map (·.1)).Nodup := by
+  refine list_rev_ind ?_ ?_
+  · exact List.nodup_nil
+  · intro evs e ih
+    have h0 : Inv ctxE (run c evs, []) :=
+      ⟨fun _ _ => trivial, ih, fun _ _ => ⟨trivial, trivial⟩, fun _ _ _ _ => trivial,
+        fun _ ho => (by cases ho), trivial⟩
+    rw [run_snoc]
+    exact ((stepE c e).step h0).keys
+
+/-! ### single-step facts (C03) -/
+
+theorem hs_needs_challenge_aux (c : Cfg) (s : HState) (src : Addr) (srcId nonce : Nat) (sig : Sig)
+    (eph : Nat) (record : Option Rec) (ct : Ct)
+    (h : s.challenges.any (·.1 == { id := srcId, addr := src }) = false) :
+    step c s (.dgram src (.handshake srcId nonce sig eph record ct)) = (s, []) := by
+  have hf : s.challenges.find? (fun x => x.1 == ({ id := srcId, addr := src } : NA)) = none := by
+    rw [List.find?_eq_none]
+    intro x hx
+    have := List.any_eq_false.1 h x hx
+    simpa using this
+  have key : wp (handleAuthMessage c { id := srcId, addr := src } nonce sig eph record ct)
+      (fun _ st' => st' = (s, [])) (s, []) := by
+    unfold handleAuthMessage
+    simp only [wp_bind, wp_getS, hf, wp_pure]
+  exact key
+
+theorem wru_needs_request_aux (c : Cfg) (s : HState) (src : Addr) (nonce cd enrSeq : Nat)
+    (h : ∀ call ∈ s.active, ¬ (call.pkt.nonce = nonce ∧ call.contact.na.addr = src)) :
+    (step c s (.dgram src (.whoareyou nonce cd enrSeq))).2 = [] ∧
+    (step c s (.dgram src (.whoareyou nonce cd enrSeq))).1.sessions = s.sessions ∧
+    (step c s (.dgram src (.whoareyou nonce cd enrSeq))).1.pending = s.pending := by
+  have key : wp (handleChallenge c src nonce cd enrSeq)
+      (fun _ st' => st'.2 = [] ∧ st'.1.sessions = s.sessions ∧ st'.1.pending = s.pending) (s, []) := by
+    unfold handleChallenge activeRemoveByNonce
+    simp only [wp_bind, wp_getS]
+    rcases hf : s.active.find? (fun x => x.pkt.nonce == nonce) with _ | call0
+    · simp only [hf, wp_pure]; refine ⟨?_, ?_, ?_⟩ <;> first | rfl | trivial
+    · simp only [hf, wp_bind, wp_setS, wp_pure, wp_ite]
+      have hn : call0.pkt.nonce = nonce := by simpa using List.find?_some hf
+      have hne : ((callNA call0).addr != src) = true := by
+        have := h call0 (List.mem_of_find?_eq_some hf)
+        simp only [not_and] at this
+        simpa [callNA] using this hn
+      rw [if_pos hne]
+      unfold activeInsert
+      simp only [wp_modS]
+      refine ⟨?_, ?_, ?_⟩ <;> first | rfl | trivial
+  exact key
+
+theorem one_hs_per_request_aux (c : Cfg) (s : HState) (src : Addr) (nonce cd enrSeq : Nat)
+    (call : Call) (hc : s.active.find? (·.pkt.nonce == nonce) = some call)
+    (ha : call.contact.na.addr = src) (hs : call.hsSent = true) :
+    ∀ o ∈ (step c s (.dgram src (.whoareyou nonce cd enrSeq))).2, ∀ na p, o ≠ .send na p := by
+  have key : wp (handleChallenge c src nonce cd enrSeq) (fun _ st' => NoSend st') (s, []) := by
+    unfold handleChallenge activeRemoveByNonce
+    simp only [wp_bind, wp_getS, hc, wp_setS, wp_pure, wp_ite]
+    have hne : ¬ ((callNA call).addr != src) = true := by simp [callNA, ha]
+    rw [if_neg hne, if_pos hs]
+    unfold removeExpected failRequest
+    simp only [wp_modS, wp_bind, wp_ite, wp_emit]
+    have h0 : NoSend ({ s with active := s.active.erase call }, []) := fun o ho => by cases ho
+    split
+    · rw [failSession_true]
+      unfold removeExpiredSessions sessRemove
+      simp only [wp_bind, wp_getS, wp_setS, wp_ite, wp_emit, wp_pure, wp_modS]
+      split
+      · refine wp_mono (tail_failSession noSend_tail c _ _ _ ?_) (fun _ _ h => h)
+        intro o ho
+        simp at ho
+        rcases ho with rfl | rfl <;> (intro _ _ hh; cases hh)
+      · refine wp_mono (tail_failSession noSend_tail c _ _ _ ?_) (fun _ _ h => h)
+        intro o ho
+        simp at ho
+        subst ho; intro _ _ hh; cases hh
+    · rw [failSession_true]
+      unfold removeExpiredSessions sessRemove
+      simp only [wp_bind, wp_getS, wp_setS, wp_ite, wp_emit, wp_pure, wp_modS]
+      split
+      · refine wp_mono (tail_failSession noSend_tail c _ _ _ ?_) (fun _ _ h => h)
+        intro o ho
+        simp at ho
+        subst ho; intro _ _ hh; cases hh
+      · refine wp_mono (tail_failSession noSend_tail c _ _ _ ?_) (fun _ _ h => h)
+        intro o ho
+        simp at ho
+  exact key
+
 end Discv5.H.HI
